@@ -168,6 +168,8 @@ class Program(object):
     def __init__(self, root=None):
         self.root = root or REPO
         self.mods = {}
+        self.consulted = {}        # rule -> quals of the functions fetched while it ran (vocabulary guard)
+        self.current_rule = None
         for name in MODULES:
             p = os.path.join(self.root, name + '.py')
             if not os.path.exists(p):
@@ -210,6 +212,7 @@ class Program(object):
                 f = self.nested(f, r, required=False)
         if f is None:
             raise AnalysisError('anchor function %s not found' % qual)
+        self.consulted.setdefault(self.current_rule, set()).add(f.qual)
         return f
 
     def has_func(self, qual):
@@ -221,6 +224,7 @@ class Program(object):
     def nested(self, finfo, name, required=True):
         for n in ast.walk(finfo.node):
             if isinstance(n, ast.FunctionDef) and n.name == name and n is not finfo.node:
+                self.consulted.setdefault(self.current_rule, set()).add(finfo.qual)
                 return FuncInfo(finfo.module, finfo.cls, name, n, parent=finfo)
         if required:
             raise AnalysisError('nested function %s.%s not found' % (finfo.qual, name))
